@@ -1589,7 +1589,9 @@ pub fn gen_cfg(rng: &mut Rng, family: Family, o: &GenOpts) -> ConcCfg {
             let uni = k == 1
                 && match family {
                     Family::View => true,
-                    Family::AddStreamSole | Family::AddStreamShared => false,
+                    // only the futures single-consumer receiver can create streams (add_stream_with)
+                    Family::AddStreamSole => fut && rng.chance(1, 3),
+                    Family::AddStreamShared => false,
                     _ => rng.chance(1, 3),
                 };
             // entry points
